@@ -14,7 +14,7 @@ CLAIMS = {
             'RF55 kill set of memory availability, RF62 combiner memory staleness, RF63 one-step builtin conversions, RF64 range predicates on un-narrowed values, '
             'RF30 no cloning of switch/jmpi blocks, RF68 memory-clobber opcodes in GVN availability, RF69 alloca escape through call arguments, RF70 loop-phi guard of ssa_combine, '
             'RF18b rewrite classifiers, RF32 incl. the combiner move, RF67 null-then-dereference, RF32t trapping divisions (abstract execution of the LICM guard), '
-            'RF86 division folds cannot trap, RF87 power-of-two width, RF97 call liveness of by-value blocks, RF9 overflow producers are flag-setting instructions (no lea), RF99 tied globals at calls (known finding), RF110 machinize-eliminated FP opcodes not produced by the combiner, RF114 renaming shortcut of make_conventional_ssa (lost copy / swap), RF70 incl. the branch folder, RF120 growth loops, RF131 spill/restore order at one place, RF48b opcode maps, RF138 reference operand equality, RF54 incl. cross-class loads, RF140 early clobbers vs pattern scratch registers, RF148 operand exchanges keep SSA edges, memory-type key of GVN merges only value-equal types (RF149), extension-pair decision helpers (RF23 helper form), per-instruction scratch of the conflict builder (RF179)',
+            'RF86 division folds cannot trap, RF87 power-of-two width, RF97 call liveness of by-value blocks, RF9 overflow producers are flag-setting instructions (no lea), RF99 tied globals at calls (known finding), RF110 machinize-eliminated FP opcodes not produced by the combiner, RF114 renaming shortcut of make_conventional_ssa (lost copy / swap), RF70 incl. the branch folder, RF120 growth loops, RF131 spill/restore order at one place, RF48b opcode maps, RF138 reference operand equality, RF54 incl. cross-class loads, RF140 early clobbers vs pattern scratch registers, RF148 operand exchanges keep SSA edges, memory-type key of GVN merges only value-equal types (RF149), extension-pair decision helpers (RF23 helper form), per-instruction scratch of the conflict builder (RF179), reload counters reset before reservations (RF198), store address arithmetic in front of an overflow producer (RF200)',
             'Decides named structural clauses that are necessary conditions of generator/interpreter equivalence: the GVN constant '
             'folder applies per opcode the same C operator on the same operand width/signedness as the interpreter; every opcode that '
             'reaches instruction selection has a pattern; x86 encodings carry the width, signedness and condition code the opcode name '
@@ -23,7 +23,7 @@ CLAIMS = {
             'removed by shortcuts. It does not decide the optimisation passes in general, register allocation or any value-level '
             'behaviour.', '3 C01'),
     'C02': ('opcode-signature agreement against the naming convention (RF8), interpreter dispatch exhaustiveness (RF7a), x86 tables '
-            '(RF9), extension/narrowing maps (RF7e/7f), one-step builtin conversions (RF63), range predicates on un-narrowed values (RF64), division folds (RF86), power-of-two width (RF87), xor form of mov 0 while overflow flags are live (RF101), address arithmetic never after an overflow producer (RF100), BT/BF folding on immediates (RF38), ALLOCA replacement is 64-bit (RF9), lea address forms (RF9), neutral-constant shortcut of strength reduction (RF141), memory-type key of GVN (RF149), opcodes machinize rewrites away are not produced again (RF110), no 64-bit value through a narrower return type (RF170)',
+            '(RF9), extension/narrowing maps (RF7e/7f), one-step builtin conversions (RF63), range predicates on un-narrowed values (RF64), division folds (RF86), power-of-two width (RF87), xor form of mov 0 while overflow flags are live (RF101), address arithmetic never after an overflow producer (RF100), BT/BF folding on immediates (RF38), ALLOCA replacement is 64-bit (RF9), lea address forms (RF9), neutral-constant shortcut of strength reduction (RF141), memory-type key of GVN (RF149), opcodes machinize rewrites away are not produced again (RF110), no 64-bit value through a narrower return type (RF170), scale through its logarithm (RF197), RF200',
             'Decides, for every opcode, that interpreter, constant folder and x86 patterns use the operator, width and signedness that '
             'MIR.md\'s naming convention prescribes, and that every emitted interpreter code has a handler. Boundary-value arithmetic '
             'inside one signature is not decided.', '3 C02'),
@@ -42,7 +42,7 @@ CLAIMS = {
             'RF28 alloca consolidation by path-wise linear forms, RF29 simplified memory operands, RF16j label forwarding-pointer scrub, RF38/41/48 '
             'folding and reversal tables, RF45 fresh merge registers, RF46 top alloca precedes calls, RF50 fresh inline registers, RF51 alignment inside the consolidated alloca area, '
             'RF56 inliner reads the API view of the callee, RF71 scans that run off the list, RF72 jump over code after a replaced ret, RF73 block argument copies released, '
-            'RF83 result extension in front of the common ret, RF90 merged alloca runs once, RF91 own register of the merged alloca, RF98 insertions inside the call bracket, RF100 address arithmetic never follows an overflow producer, RF113 link-time passes are not re-entered, RF48b no opcode map negates an ordered FP relation, RF46 incl. branches, RF142 single-register address shortcut of simplify_op, operand writes of the inliner are a frozen table (RF153), value-number table emptied by every per-function driver (RF161), FP constants looked up by bits (RF180), alloca after ret (RF46), own register of the merged top alloca (RF190)',
+            'RF83 result extension in front of the common ret, RF90 merged alloca runs once, RF91 own register of the merged alloca, RF98 insertions inside the call bracket, RF100 address arithmetic never follows an overflow producer, RF113 link-time passes are not re-entered, RF48b no opcode map negates an ordered FP relation, RF46 incl. branches, RF142 single-register address shortcut of simplify_op, operand writes of the inliner are a frozen table (RF153), value-number table emptied by every per-function driver (RF161), FP constants looked up by bits (RF180), alloca after ret (RF46), own register of the merged top alloca (RF190), RF200',
             'Decides that the link-time shortcut set is disjoint from overflow-flag producers, that result/argument extension maps agree '
             'with the target\'s, that label bookkeeping covers every label-carrying opcode, that the inliner\'s consolidated alloca size '
             'covers every offset it hands out, that memory operands it builds are base-only, and that label forwarding pointers used '
@@ -70,7 +70,7 @@ CLAIMS = {
             'is not decided.', '3 C10'),
     'C11': ('binary writer/reader vocabulary agreement (RF7d), label provenance (RF15), padding of type-punned temporaries (RF14), '
             'tagged-union discipline (RF6), byte callbacks as the only sink/source (RF7j), encoder counter discipline (RF13c), token payload read once (RF75), '
-            'memory operand fields by abstract execution of writer and reader (RF82), shared header reader (RF96), compression layer verdict (RF88), reserved-name bookkeeping in the reader (RF85b), opcode acceptance agreement of writer and reader (RF115), label counter kept ahead of explicit label numbers (RF121), scalar operand mode survives the binary form (RF129), label table of the reader is an injective function, by abstract execution (RF176), no FP conversion of values in the reader/writer (RF191)',
+            'memory operand fields by abstract execution of writer and reader (RF82), shared header reader (RF96), compression layer verdict (RF88), reserved-name bookkeeping in the reader (RF85b), opcode acceptance agreement of writer and reader (RF115), label counter kept ahead of explicit label numbers (RF121), scalar operand mode survives the binary form (RF129), label table of the reader is an injective function, by abstract execution (RF176), no FP conversion of values in the reader/writer (RF191), encoder literal run and staging typestate (RF13s, RF183)',
             'Decides vocabulary agreement between write_* and read_*, that lref labels come from the reader\'s label table, and that no '
             'indeterminate byte reaches the output stream. Value encodings are not decided.', '3 C11'),
     'C12': ('bounded-write guard coverage in the decoder (RF13, including copy helpers and the written-prefix clause for back references), no wrap of the 32-bit '
@@ -80,24 +80,24 @@ CLAIMS = {
             'bound check on the same index expression that covers the whole extent touched, also through copy helpers. Losslessness '
             'and detection of every corruption are not decided.', '3 C12'),
     'C13': ('must-pass-through rules on setup_global / MIR_link / MIR_load_module (RF16c-e), interned-key discipline (RF24), add_item as a '
-            'transition system over declaration orders (RF16l), RF6 on add_item, exported section registered through its head item (RF79), reference operands stay on import items (RF108), who may write item->addr (RF123), who may write op.u.ref (RF136), reference operand equality (RF138), engines never follow ref_def (RF150), undefined export / forward diagnostics reachable (RF157), no diagnostic after a registration in the environment within one item of MIR_link (RF158), every exported item registered (RF168)',
+            'transition system over declaration orders (RF16l), RF6 on add_item, exported section registered through its head item (RF79), reference operands stay on import items (RF108), who may write item->addr (RF123), who may write op.u.ref (RF136), reference operand equality (RF138), engines never follow ref_def (RF150), undefined export / forward diagnostics reachable (RF157), no diagnostic after a registration in the environment within one item of MIR_link (RF158), every exported item registered (RF168), MIR_link sees modules loaded during the link (RF196)',
             'Decides necessary structural conditions: the environment entry is overwritten on every load; every import/export/forward '
             'is bound on every non-error path from the module item table; the redefinition error is guarded by exactly the reference '
             'guard set; table probes use interned names. History semantics are not decided.', '3 C13'),
     'C14': ('size-pass/placement-pass agreement and initialisation obligation in load_bss_data_section (RF16f), provenance of '
-            'resolved addresses in MIR_link (RF16d), store-width agreement (RF7f), contiguity clause (RF16f), lref detection over all items (RF53), lref list rebuilt on reload (RF76), section published at its head (RF79), interpreter label unit (RF89), placement pass leaves lref cells alone (RF16f lref clause), expr data store width (RF128), ref cells hold the public address (RF132), section addresses come from the section allocation only (RF16m), loaded temp data (RF151), counted strings never measured as C strings (RF162), writes of load_bss_data_section sized by the placed item (RF171), a second load looks at every item (RF188)',
+            'resolved addresses in MIR_link (RF16d), store-width agreement (RF7f), contiguity clause (RF16f), lref detection over all items (RF53), lref list rebuilt on reload (RF76), section published at its head (RF79), interpreter label unit (RF89), placement pass leaves lref cells alone (RF16f lref clause), expr data store width (RF128), ref cells hold the public address (RF132), section addresses come from the section allocation only (RF16m), loaded temp data (RF151), counted strings never measured as C strings (RF162), writes of load_bss_data_section sized by the placed item (RF171), a second load looks at every item (RF188), lref displacement in every engine (RF194)',
             'Decides that both passes use the same kind predicates and per-kind size expressions, that bss is zeroed on every load, and '
             'that forward/export addresses come from the definition found in the module item table. Byte contents are not decided.',
             '3 C14'),
     'C15': ('operand-mode table vs specification (RF17), call-family coverage (RF7b) and operand classification (RF19c), memory-operand '
             'decision tables (RF19, RF19e), register-required operands (RF19d), register look-up rule (RF16h), output-capable operand modes (RF81), '
-            'null-then-dereference in the validator (RF67), operand-count exemptions (RF94), repeated-name check dominates every return of create_func_reg (RF102), operands exempt from validation and callee kind (RF134), mode comparison table (RF145), per-instruction checks per opcode and operand count (RF154), validation exemptions evaluated under every operand mode (RF134), expected modes of switch (RF169), every diagnostic leaves the context without an open function (RF184)',
+            'null-then-dereference in the validator (RF67), operand-count exemptions (RF94), repeated-name check dominates every return of create_func_reg (RF102), operands exempt from validation and callee kind (RF134), mode comparison table (RF145), per-instruction checks per opcode and operand count (RF154), validation exemptions evaluated under every operand mode (RF134), expected modes of switch (RF169), every diagnostic leaves the context without an open function (RF184), property operand checked at creation (RF195)',
             'Decides the static table that the run-time validator consults, row by row against the documented grammar, and that error '
             'branches call the error function with a specific code.', '3 C15'),
     'C16': ('duplicate/restore protocol on every generation path (RF16a/b/i), scratch use of insn data scrubbed (RF16j), no instruction write '
             'before the working copy exists (RF16k), label-operand '
             'positions (RF7g), lref cell written by one engine (RF42b, known finding), API view of a callee (RF56), generator stores only engine-private '
-            'descriptor fields (RF66), direct-call patching needs machine code (RF77), generator state that outlives a function is reset on every path (RF107), growth loops of parallel vectors (RF120), thunk re-targeted by every interface setter (RF31b), code address never stands for the function (RF132), generator frees only its own item data (RF163), lref cells survive a re-load (RF16f, RF171), wrapper templates preserve the argument registers (RF11)',
+            'descriptor fields (RF66), direct-call patching needs machine code (RF77), generator state that outlives a function is reset on every path (RF107), growth loops of parallel vectors (RF120), thunk re-targeted by every interface setter (RF31b), code address never stands for the function (RF132), generator frees only its own item data (RF163), lref cells survive a re-load (RF16f, RF171), wrapper templates preserve the argument registers (RF11), current module restored from a saved value (RF199)',
             'Decides the must-pass-through protocol of generate_func_code, sibling agreement of saved/restored fields, and that every '
             'forwarding pointer parked in the original labels while instructions are copied is reset on every path.', '3 C16'),
     'C17': ('who-may-call allocator confinement (RF1), init/finish create-destroy pairing (RF2/RF27), single owner of item data (RF2b), realloc old-size contract (RF3), '
